@@ -183,7 +183,7 @@ def _trimmed(s):
 def string_st(limit, markup=True):
     cap = limit if limit is not None else 64
     short = min(cap, 10)
-    pool = ["x", "A b", "é漢", "a,b", "1.5", "Tom's", 'say "hi"', "a b"]
+    pool = ["x", "A b", "é漢", "a,b", "1.5", "Tom's", 'say "hi"', "a b", "a  b", "ACME   HARDWARE  CO"]
     if markup:
         pool += ["AT&T", "a<b", "a>b", "<&>", "a & b < c", "R&amp;D", "&lt;", "a&nbsp;b", "&quot;x&quot;", "it&apos;s", "&amp;nbsp;x", "&#38;", "a&b;c", "AT&amp;amp;T", "x&amp;nbsp;y", "&amp;lt;b&amp;gt;", "&amp;quot;q&amp;quot;", "&amp;amp;amp;"]
     base = st.one_of(
